@@ -290,6 +290,9 @@ func glyphLabels(l labelSet, m *mglyph) {
 			if len(c.Instr)%2 == 1 {
 				l.add("composite:instructions-odd")
 			}
+			if c.Comps[len(c.Comps)-1].Flags&refglyf.WeHaveInstructions == 0 {
+				l.add("composite:instructions-flag-not-on-last")
+			}
 		}
 		if len(c.Comps) > 1 {
 			l.add("composite:multi")
